@@ -118,6 +118,10 @@ class SArr(Sym):
     def T(self):
         return self.transpose()
 
+    @property
+    def dtype(self):
+        return {'real': 'float64', 'int': 'int64', 'bool': 'bool'}.get(self.kind, self.kind)
+
     def transpose(self):
         if self.ndim <= 1:
             return self
